@@ -1,1 +1,3 @@
 pub mod c04;
+pub mod c14;
+pub mod c12;
